@@ -206,3 +206,35 @@ func VH_C04_CloseConns() {
 	vAssert("C04.closeconns.all_released", w.vClosedOK(c, vConnFD) && w.vClosedOK(c2, vConn2FD) && w.el.countConn() == 0)
 	vReach("C04.closeconns.end")
 }
+
+// a connected client UDP socket (Dial/Enroll of a udp address) that was closed: later requests on the stale object are
+// no-ops even when a new connection of the same loop re-uses the descriptor number
+//
+//verif: mode=int unwind=6
+func VH_C04_StaleUDPClient() {
+	w := vNewWorld(vNondetBool("et"), 1<<20)
+	old := newUDPConn(vConnFD, w.el, vLocalUDP, vRemoteSA, true)
+	vk.S[vConnFD] = vk.Sock{Owner: vk.Framework, Registered: true}
+	w.el.connections.addConn(old, 0)
+	old.opened = true
+	w.h.g(old).opens = 1
+	_ = w.el.close(old, nil)
+	vAssert("C04.staleudp.setup_closed", w.vClosedOK(old, vConnFD))
+	nu := w.vOpenConn(vConnFD, "new", false, false)
+	req := vPick("request", 3)
+	switch req {
+	case 0:
+		_ = old.Wake(nil)
+	case 1:
+		_ = old.Close()
+	case 2:
+		_ = old.CloseWithCallback(nil)
+	}
+	ran, err := w.el.poller.VRunOne()
+	g, gn := w.h.g(old), w.h.g(nu)
+	vAssert("C04.staleudp.task_ran", ran && err == nil)
+	vAssert("C04.staleudp.no_callbacks_for_closed_conn", g.closes == 1 && g.trafficAfterClose == 0)
+	vAssert("C04.staleudp.new_owner_unaffected", nu.opened && gn.closes == 0 && gn.traffics == 0 && w.el.connections.getConn(vConnFD) == nu &&
+		vk.S[vConnFD].Owner == vk.Framework && vk.S[vConnFD].Closes == 0 && w.el.countConn() == 1)
+	vReach("C04.staleudp.end")
+}
